@@ -3,7 +3,7 @@
 
 #define MAXTH 6
 enum { M_MERGE, M_SUSPEND_RESUME, M_PAUSE, M_REPLACE_HANDLER };
-typedef struct mop { int idx, kind; uint64_t val; int burst; } mop;
+typedef struct mop { int idx, kind; uint64_t val; int burst, depth; } mop;
 static struct {
 	dispatch_source_t ds; int type;      // 0 ADD, 1 OR, 2 REPLACE
 	dispatch_queue_t tq; int tqkind;     // 0 serial, 1 concurrent, 2 global, 3 serial targeting concurrent
@@ -66,11 +66,11 @@ static void *merger(void *arg) {
 		switch (op->kind) {
 		case M_MERGE: do_merge(op->val, "client"); break;
 		case M_SUSPEND_RESUME:
-			h_log("suspend source");
-			dispatch_suspend(D.ds);
+			h_log("suspend source x%d", op->depth);
+			for (int k = 0; k < op->depth; k++) dispatch_suspend(D.ds);   // nested: a few levels, or past the point where the count spills into the side counter
 			for (int k = 0; k < op->burst; k++) { do_merge(op->val + (uint64_t)k * (D.type == 1 ? 0 : 1), "client(suspended)"); sim_point(); }
-			h_log("resume source");
-			dispatch_resume(D.ds);
+			h_log("resume source x%d", op->depth);
+			for (int k = 0; k < op->depth; k++) { dispatch_resume(D.ds); if ((k & 15) == 15) sim_point(); }
 			break;
 		case M_PAUSE: sim_sleep_ns(op->val); break;
 		case M_REPLACE_HANDLER:
@@ -110,6 +110,8 @@ static void c15_run(void) {
 			else if (op->kind == M_MERGE && g_chance(1, 16)) op->val = 0;   // documented: no effect for ADD / OR; REPLACE stores it and the handler is not called for it
 			else if (op->kind != M_PAUSE && g_chance(1, 4)) op->val = D.type == 1 ? (1ull << (20 + g_n(43))) : D.type == 0 ? ((uint64_t)(1 + g_n(1000)) << (20 + g_n(30))) : ((uint64_t)(1 + g_n(1000)) << (20 + g_n(40))) | g_n(1000);
 			op->burst = g_range(1, 4);
+			op->depth = g_chance(1, 6) ? g_range(60, 70) : g_chance(1, 3) ? g_range(2, 4) : 1;
+			if (D.late_activate && op->depth > 4) op->depth = 4;   // (dozens of suspensions of a not yet activated source followed by a set_*_handler call: documented client crash)
 			if (op->kind == M_SUSPEND_RESUME && g_chance(1, 3)) op->burst = 0;   // a bare suspend/resume pair: may land inside one invocation of the source
 		}
 	}
@@ -120,7 +122,7 @@ static void c15_run(void) {
 		for (int i = 0; i < D.nops[t]; i++) if (op_on(D.ops[t][i].idx)) {
 			mop *op = &D.ops[t][i];
 			if (op->kind == M_MERGE) h_sample(" #%d merge(%lu)", op->idx, (unsigned long)op->val);
-			else if (op->kind == M_SUSPEND_RESUME) h_sample(" #%d suspend+%d merges+resume", op->idx, op->burst);
+			else if (op->kind == M_SUSPEND_RESUME) h_sample(" #%d suspend(x%d)+%d merges+resume", op->idx, op->depth, op->burst);
 			else if (op->kind == M_REPLACE_HANDLER) h_sample(" #%d replace-handler", op->idx);
 			else h_sample(" #%d pause", op->idx);
 		}
